@@ -586,6 +586,7 @@ Proof.
   apply andb_true_iff in Hb. destruct Hb as [Hb Hvba].
   apply andb_true_iff in Hb. destruct Hb as [Hb Huniq].
   apply andb_true_iff in Hb. destruct Hb as [Hb Hvalid].
+  apply andb_true_iff in Hb. destruct Hb as [Hb Hlinks].
   apply andb_true_iff in Hb. destruct Hb as [Hb Hlen].
   apply andb_true_iff in Hb. destruct Hb as [Hb Hpos].
   apply andb_true_iff in Hb. destruct Hb as [Hb Hwf].
@@ -835,34 +836,69 @@ Proof.
   apply andb_true_iff in Hb. destruct Hb as [Hb Hbook].
   apply andb_true_iff in Hb. destruct Hb as [Hb Hvba].
   apply andb_true_iff in Hb. destruct Hb as [Hb Huniq].
-  apply andb_true_iff in Hb. destruct Hb as [_ Hvalid].
+  apply andb_true_iff in Hb. destruct Hb as [Hb Hvalid].
+  apply andb_true_iff in Hb. destruct Hb as [_ Hlinks].
   set (c := xls_container wb ch) in *. set (l := xc_layout ch) in *.
   assert (Hv : Cfb.valid_layout c l) by exact Hvalid.
   assert (Hu : Cfb_proofs.names_unique c) by exact Huniq.
   destruct (Cfb_proofs.cfb_new_written Hv Hfuel) as [cf [r [Hnew Hw]]].
   unfold xls_open_model, xls_file_write. fold c l. rewrite Hnew. cbn [obind].
-  (* no VBA storage *)
-  assert (Hnov : Cfb.has_directory cf VBA_CUR = false).
-  { unfold Cfb.has_directory. apply find_none_existsb.
-    destruct Hw as (Hdirs & _). rewrite Hdirs.
-    change (find (fun d => Cfb.list_eqb (Cfb.d_name d) VBA_CUR) (Cfb_proofs.parsed_dirs c l))
-      with (Cfb.find_dir VBA_CUR (Cfb_proofs.parsed_dirs c l)).
-    rewrite (@Cfb_proofs.find_dir_first c l VBA_CUR Hv) by discriminate.
-    replace (Cfb.first_slot c l VBA_CUR) with (@None N); [reflexivity|]. symmetry.
-    apply Cfb_proofs.min_slot_none_iff. intros s it Hsi Hn.
-    apply negb_true_iff in Hvba. apply Cfb_proofs.slot_table_names in Hsi. rewrite Hn in Hsi.
-    apply Cfb_proofs.mem_list_In in Hsi. rewrite Hsi in Hvba. discriminate. }
-  rewrite Hnov.
-  (* the Workbook (or Book) stream *)
-  assert (Hwb : Cfb.workbook_or_book cf r = Ok (xls_stream_write wb ch)).
-  { destruct (@Cfb_proofs.workbook_stream_preferred_unique c l fuel Hv Hu Hfuel) as [P1 P2].
-    unfold Cfb.xls_workbook_stream in P1, P2. rewrite Hnew in P1, P2. cbn [obind] in P1, P2.
-    assert (Hin : In (wb_stream_name ch, xls_stream_write wb ch) (Cfb.c_streams c)).
-    { unfold c, xls_container. cbn [Cfb.c_streams]. apply in_or_app. right. left. reflexivity. }
-    unfold wb_stream_name in Hin. destruct (xc_book ch) eqn:Eb.
-    - apply P2; [|exact Hin]. cbn [negb orb] in Hbook. apply negb_true_iff in Hbook.
-      intros Hi. apply Cfb_proofs.mem_list_In in Hi. rewrite Hi in Hbook. discriminate.
-    - apply P1. exact Hin. }
+  assert (Hnovn : ~ In VBA_CUR (Cfb.all_names c)).
+  { intros Hi. apply negb_true_iff in Hvba. apply Cfb_proofs.mem_list_In in Hi. rewrite Hi in Hvba. discriminate. }
+  assert (Hin : In (wb_stream_name ch, xls_stream_write wb ch) (Cfb.c_streams c)).
+  { unfold c, xls_container. cbn [Cfb.c_streams]. apply in_or_app. right. left. reflexivity. }
+  assert (Hnowb : xc_book ch = true -> ~ In Cfb.WORKBOOK (Cfb.all_names c)).
+  { intros Eb Hi. rewrite Eb in Hbook. cbn [negb orb] in Hbook. apply negb_true_iff in Hbook.
+    apply Cfb_proofs.mem_list_In in Hi. rewrite Hi in Hbook. discriminate. }
+  assert (Hplain_vba : Cfb_proofs.plain VBA_CUR) by (split; discriminate).
+  assert (Hboth : Cfb.has_directory cf VBA_CUR = false /\ Cfb.workbook_or_book cf r = Ok (xls_stream_write wb ch)).
+  { apply orb_true_iff in Hlinks. destruct Hlinks as [Hflat|Htree].
+    - (* no hierarchy written: the flat scan, names distinct over the whole file *)
+      assert (Hfl : Cfb_proofs.flat_root c l) by exact Hflat.
+      destruct (@Cfb_proofs.has_directory_flat c l fuel Hv Hfl Hfuel) as (cf' & r' & Hnew' & _ & Hhas).
+      rewrite Hnew in Hnew'. inversion Hnew'; subst cf' r'. split.
+      + destruct (Cfb.has_directory cf VBA_CUR) eqn:E; [|reflexivity].
+        exfalso. apply Hnovn. apply (proj1 (Hhas _ Hplain_vba)). exact E.
+      + destruct (@Cfb_proofs.flat_workbook_stream_preferred c l fuel Hv Hfl Hu Hfuel) as [P1 P2].
+        unfold Cfb.xls_workbook_stream in P1, P2. rewrite Hnew in P1, P2. cbn [obind] in P1, P2.
+        unfold wb_stream_name in Hin. destruct (xc_book ch) eqn:Eb.
+        * apply P2; [apply Hnowb; reflexivity|exact Hin].
+        * apply P1. exact Hin.
+    - (* a tree of links: lookups by path from the root storage *)
+      apply andb_true_iff in Htree. destruct Htree as [Htree Hroot]. apply N.eqb_eq in Hroot.
+      assert (Ht : Cfb_proofs.linked_tree c l) by exact Htree.
+      destruct (@Cfb_proofs.has_directory_root c l Hv Ht fuel Hfuel) as (cf' & r' & Hnew' & _ & Hhas).
+      rewrite Hnew in Hnew'. inversion Hnew'; subst cf' r'. split.
+      + rewrite (Hhas _ Hplain_vba). destruct (Cfb.resolve c 0 [VBA_CUR]) as [p|] eqn:Er; [|reflexivity].
+        exfalso. apply Hnovn. apply (Cfb_proofs.resolve_one_in_names _ _ Er).
+      + (* the workbook stream is the object wb_object of the container, held by the root *)
+        destruct (Cfb_proofs.valid_dir Hv) as [_ [_ [_ [_ [_ Hh]]]]].
+        assert (Hobj : nth_error (Cfb.all_names c) (wb_object ch) = Some (wb_stream_name ch)).
+        { unfold Cfb.all_names, c, xls_container, wb_object. cbn [Cfb.c_storages Cfb.c_streams].
+          rewrite nth_error_app2 by lia. replace (length (xc_storages ch) + length (xc_pre ch) - length (xc_storages ch))%nat
+            with (length (xc_pre ch)) by lia.
+          rewrite map_app. rewrite nth_error_app2 by (rewrite map_length; lia). rewrite map_length, Nat.sub_diag. reflexivity. }
+        pose proof (@Cfb_proofs.resolve_one_root c (wb_object ch) (wb_stream_name ch) Hh Hobj Hroot) as Hres.
+        assert (Hsp : Cfb.spec_path c [wb_stream_name ch] = Some (xls_stream_write wb ch)).
+        { unfold Cfb.spec_path. rewrite Hres.
+          replace (N.of_nat (length (Cfb.c_storages c)) <? N.of_nat (S (wb_object ch))) with true
+            by (symmetry; apply N.ltb_lt; unfold c, xls_container, wb_object; cbn [Cfb.c_storages]; lia).
+          replace (N.to_nat (N.of_nat (S (wb_object ch)) - N.of_nat (length (Cfb.c_storages c))) - 1)%nat
+            with (length (xc_pre ch)) by (unfold c, xls_container, wb_object; cbn [Cfb.c_storages]; lia).
+          unfold c, xls_container. cbn [Cfb.c_streams]. rewrite nth_error_app2 by lia. rewrite Nat.sub_diag. reflexivity. }
+        pose proof (@Cfb_proofs.workbook_stream_preferred c l Hv Ht fuel (xls_stream_write wb ch) Hfuel) as P.
+        unfold Cfb.xls_workbook_stream in P. rewrite Hnew in P. cbn [obind] in P. apply P.
+        * unfold Cfb.spec_workbook. unfold wb_stream_name in Hsp. destruct (xc_book ch) eqn:Eb.
+          -- replace (Cfb.spec_path c [Cfb.WORKBOOK]) with (@None (list N)); [exact Hsp|]. symmetry.
+             unfold Cfb.spec_path. destruct (Cfb.resolve c 0 [Cfb.WORKBOOK]) as [p|] eqn:Er; [|reflexivity].
+             exfalso. apply (Hnowb eq_refl). apply (Cfb_proofs.resolve_one_in_names _ _ Er).
+          -- rewrite Hsp. reflexivity.
+        * unfold Cfb.root_storage_named. unfold wb_stream_name in Hres. destruct (xc_book ch) eqn:Eb.
+          -- destruct (Cfb.resolve c 0 [Cfb.WORKBOOK]) as [p|] eqn:Er; [|reflexivity].
+             exfalso. apply (Hnowb eq_refl). apply (Cfb_proofs.resolve_one_in_names _ _ Er).
+          -- rewrite Hres. apply andb_false_iff. right. apply N.leb_gt.
+             unfold c, xls_container, wb_object. cbn [Cfb.c_storages]. lia. }
+  destruct Hboth as [Hnov Hwb]. rewrite Hnov.
   rewrite Hwb. cbn [obind]. apply xls_stream_main. exact HL.
 Qed.
 End Whole.
@@ -947,7 +983,7 @@ Definition ex_ch0 : xchoice :=
         {| Cfb.l_nsect := 4; Cfb.l_fat_ids := [0]; Cfb.l_difat_ids := []; Cfb.l_dir_ids := [1];
            Cfb.l_minifat_ids := [2]; Cfb.l_root_ids := [3]; Cfb.l_nmini := 8;
            Cfb.l_chains := [[0; 1; 2; 3; 4; 5; 6; 7]]; Cfb.l_slots := [3]; Cfb.l_pad := 0;
-           Cfb.l_size_hi := 0; Cfb.l_empty_start := Cfb.ENDOFCHAIN; Cfb.l_links := [] |}.
+           Cfb.l_size_hi := 0; Cfb.l_empty_start := Cfb.ENDOFCHAIN; Cfb.l_links := [(Cfb.FREESECT, Cfb.FREESECT, 3)] |}.
 Definition ex_ch : xchoice := set_positions ex_wb ex_ch0.
 
 Lemma example_whole : forall fdiv100,
